@@ -36,6 +36,7 @@ type Prog struct {
 	contracts map[string]*Contract // pkgpath.Key -> contract (incl. trusted externals by full name)
 	lemmas    []*Contract
 	defs      map[string]*Contract
+	nonNeg    map[string]bool
 	root      string
 }
 
@@ -48,7 +49,7 @@ func loadProg(root string, patterns []string) (*Prog, error) {
 	if err != nil {
 		return nil, err
 	}
-	p := &Prog{pkgs: map[string]*packages.Package{}, funcs: map[*types.Func]*FuncInfo{}, byKey: map[string]*FuncInfo{}, contracts: map[string]*Contract{}, defs: map[string]*Contract{}, root: root}
+	p := &Prog{pkgs: map[string]*packages.Package{}, funcs: map[*types.Func]*FuncInfo{}, byKey: map[string]*FuncInfo{}, contracts: map[string]*Contract{}, defs: map[string]*Contract{}, nonNeg: map[string]bool{}, root: root}
 	var errs []string
 	packages.Visit(pkgs, nil, func(pk *packages.Package) {
 		p.pkgs[pk.PkgPath] = pk
@@ -103,6 +104,12 @@ func loadProg(root string, patterns []string) (*Prog, error) {
 					return nil, err
 				}
 				for _, c := range cs {
+					if c.Key == "$nonneg" {
+						for _, f := range c.ModText {
+							p.nonNeg[pk.PkgPath+"."+f] = true
+						}
+						continue
+					}
 					if c.IsDef {
 						p.defs[pk.PkgPath+"."+c.Key] = c
 						continue
@@ -221,6 +228,9 @@ func (v *Verifier) intrinsic(fr *Frame, st *State, full string, fn *types.Func, 
 		if !fr.inSpec {
 			v.oblige(fr, st, "bounds", pos, v.iLe(v.idxConst(n), sv.Len), fmt.Sprintf("%s needs %d bytes", fn.Name(), n))
 		}
+	}
+	if r, ok := v.bigIntrinsic(fr, st, full, fn, recv, args, x); ok {
+		return r, true
 	}
 	if v.eng.MathInts {
 		// only effect-free helpers are modelled in math mode
